@@ -1029,6 +1029,24 @@ def possible_values(ctx: Ctx, f: Func, expr: ast.AST, at: Optional[ast.AST] = No
         return t if _known(t) and isinstance(t, dict) and all(isinstance(x, (str, int, bool, type(None))) for x in t.values()) else None
 
     out: Set[object]
+    # the variable of a loop over a constant table of rows: `for valid, aliases in _TABLE: ... return valid`
+    if isinstance(expr, ast.Name) and expr.id not in env:
+        for lp in ast.walk(f.node):
+            if isinstance(lp, ast.For):
+                tgts = lp.target.elts if isinstance(lp.target, ast.Tuple) else [lp.target]
+                for i, t in enumerate(tgts):
+                    if isinstance(t, ast.Name) and t.id == expr.id and sum(1 for y in ast.walk(f.node) if isinstance(y, ast.Name) and y.id == expr.id and isinstance(y.ctx, ast.Store)) == 1:
+                        seq = ctx.folder.fold(lp.iter, f.module)
+                        if _known(seq) and isinstance(seq, (tuple, list)) and seq:
+                            if isinstance(lp.target, ast.Tuple):
+                                if all(isinstance(r, (tuple, list)) and len(r) == len(tgts) for r in seq):
+                                    vals = {r[i] for r in seq}
+                                else:
+                                    return {UNKNOWN_VALUE}
+                            else:
+                                vals = set(seq)
+                            if all(isinstance(v_, (str, int, bool, type(None))) for v_ in vals):
+                                return vals
     if isinstance(expr, ast.Name) and expr.id in env:
         out = possible_values(ctx, f, env[expr.id], None, depth + 1)
         if at is not None:
